@@ -63,6 +63,10 @@ func parallelCases(cases [][]string, workers int, out *bufio.Writer, f func(c []
 // error paths): when a child dies the case it was running is reported as "abort=<exit code>"
 // and a new child continues with the rest.  conf.Options is global, so a child runs its cases
 // one after the other; `workers` children run side by side.
+// perChildLimit > 0: a child process handles at most that many cases (1 = a fresh process per case: nothing a
+// case leaks - goroutines retrying connections, global configuration - can reach the next one)
+var perChildLimit = 0
+
 func isolatedCases(prop string, cases [][]string, workers int, out *bufio.Writer, f func(c []string) string) {
 	if os.Getenv("RSPROBE_CHILD") == "1" {
 		for _, c := range cases {
@@ -88,8 +92,12 @@ func isolatedCases(prop string, cases [][]string, workers int, out *bufio.Writer
 				round++
 				cf := filepath.Join(tmp, fmt.Sprintf("c-%d-%d.txt", w, round))
 				of := filepath.Join(tmp, fmt.Sprintf("o-%d-%d.txt", w, round))
+				batch := idx
+				if perChildLimit > 0 && len(batch) > perChildLimit {
+					batch = batch[:perChildLimit]
+				}
 				var b strings.Builder
-				for _, i := range idx {
+				for _, i := range batch {
 					b.WriteString(strings.Join(cases[i], " "))
 					b.WriteString("\n")
 				}
@@ -101,7 +109,7 @@ func isolatedCases(prop string, cases [][]string, workers int, out *bufio.Writer
 				data, _ := os.ReadFile(of)
 				done := 0
 				for _, line := range strings.Split(string(data), "\n") {
-					if line == "" || done >= len(idx) {
+					if line == "" || done >= len(batch) {
 						continue
 					}
 					sp := strings.SplitN(line, " ", 2)
@@ -111,7 +119,7 @@ func isolatedCases(prop string, cases [][]string, workers int, out *bufio.Writer
 					res[idx[done]] = sp[1]
 					done++
 				}
-				if done < len(idx) {
+				if done < len(batch) {
 					code := -1
 					if ee, ok := err.(*exec.ExitError); ok {
 						code = ee.ExitCode()
